@@ -223,3 +223,14 @@ MANIFEST_TEXT['C05'] = (
  "Partial proof. Machine-checked for all states: an unheard broadcast / entity event drops its payload at once and creates no bookkeeping entity or command; otherwise the counter of the fresh data entity equals the number of reaction commands queued behind it; every cleanup performs exactly one decrement, which leaves entity and payload untouched while the counter stays positive and despawns the entity — dropping the payload — when it reaches zero; the cleanup of a system-event command despawns its data entity; a skipped (aborted) reader still runs setup and cleanup and setup never fails. The global counting argument (each scheduled reader reaches its cleanup exactly once, so release happens exactly after the last one and no entity outlives the tree) is not a theorem: it is checked by differential runs comparing every payload drop position and the number of live data entities after every top-level op (stale profile: listeners revoked, despawned or missing between scheduling and running), plus the m_payloads monitor.",
  "Trusted: Coq kernel; model faithfulness (differential); Bevy semantics as modelled. Partial: the exactly-once / not-before-the-last-reader claim over whole trees is correspondence + monitor.",
  "Coq proof of the step-level protocol (partial) + model/implementation correspondence on drop positions and data-entity counts + monitor", "DESIGN.md §5 C05")
+
+PROPS['C15'] = P(
+    ['one_off_reactor_runs_at_most_once', 'one_off_record_bound', 'once_invariant_everywhere', 'spent_wrapper_does_nothing', 'first_run_of_the_wrapper',
+     'entity_gone_after_the_run', 'revoking_its_token_removes_every_trigger', 'spent_wrapper_is_never_runnable'],
+    ['once', 'lifetime', 'dispatch', 'mixed'], 'once', determined=True,
+    assumes=['partial: "runs on the FIRST trigger to fire" (at least once) and "revoked before any trigger fires / empty bundle: collected without ever running" go through dispatch exactness (C01), revocation (C06) and the auto-despawn handles (C07); they are checked by the correspondence (once profile), not restated as theorems here',
+             'S1: the completeness of self-revocation assumes one registration per (reactor, key)'])
+MANIFEST_TEXT['C15'] = (
+ "Machine-checked for every program: over the whole history of a run the inner system of a one-off wrapper is started at most once per reactor, whether or not the reactor still exists (closed invariant OH over a ghost start history written next to the EvRun line; Local is 0 until the inner system is taken and at most 1 afterwards); a spent wrapper is a no-op and is never held by the runner as runnable; the first run marks the wrapper, runs the inner system, despawns its own entity (dead afterwards), revokes its own token (which removes every registration it names) and drops the inner system. Tied to /repo by differential runs of the once profile (multi-trigger bundles, several triggers in one tree, self-triggering, revocation before and after) comparing runs, live entities and table sizes.",
+ "Trusted: Coq kernel; model faithfulness (differential); Bevy semantics as modelled. Partial: at-least-once on the first trigger and never-runs-when-revoked/empty are correspondence only (they rest on C01/C06/C07).",
+ "Coq proof (closed invariants over ghost histories + step lemmas of the wrapper) + model/implementation correspondence", "DESIGN.md §5 C15")
